@@ -128,6 +128,8 @@ class RenderNode(Node):
                         carry_loop_iterations=True,
                         template=template,
                     )
+                    # Loops inside the partial count these iterations too.
+                    ctx.loop_iteration_carry *= max(forloop.length, 1)
                     character_count += template.render_with_context(
                         ctx, buffer, partial=True, block_scope=True
                     )
@@ -198,6 +200,8 @@ class RenderNode(Node):
                         carry_loop_iterations=True,
                         template=template,
                     )
+                    # Loops inside the partial count these iterations too.
+                    ctx.loop_iteration_carry *= max(forloop.length, 1)
                     character_count += await template.render_with_context_async(
                         ctx, buffer, partial=True, block_scope=True
                     )
